@@ -76,19 +76,30 @@ def lake_build(targets, timeout=3000):
 
 
 _AUDIT_TMPL = """import Lean
-import RigModel.Props.%(prop)s
+%(imports)s
 open Lean in
 run_cmd do
   let env ← getEnv
-  let some idx := env.getModuleIdx? `RigModel.Props.%(prop)s | throwError "module not found"
-  for n in env.header.moduleData[idx.toNat]!.constNames do
-    if n.isInternal then continue
-    match env.find? n with
-    | some (.thmInfo _) =>
-      let ax ← Lean.collectAxioms n
-      IO.println s!"AUDIT {n} :: {ax.toList}"
-    | _ => pure ()
+  for modName in [%(mods)s] do
+    let some idx := env.getModuleIdx? modName | throwError "module not found"
+    for n in env.header.moduleData[idx.toNat]!.constNames do
+      if n.isInternal then continue
+      match env.find? n with
+      | some (.thmInfo _) =>
+        let ax ← Lean.collectAxioms n
+        IO.println s!"AUDIT {n} :: {ax.toList}"
+      | _ => pure ()
 """
+
+
+def props_modules(prop):
+    """RigModel.Props.Cxx and every companion module RigModel.Props.Cxx<Suffix> (e.g. C02Orders)"""
+    d = os.path.join(LEAN, "RigModel", "Props")
+    mods = []
+    for f in sorted(os.listdir(d)):
+        if f.endswith(".lean") and f.startswith(prop) and (len(f) == len(prop) + 5 or not f[len(prop)].isdigit()):
+            mods.append("RigModel.Props." + f[:-5])
+    return mods
 
 _FORBIDDEN = re.compile(
     r"\b(sorry|admit|native_decide|bv_decide|implemented_by|maxHeartbeats 0)\b|^\s*axiom\s|\bunsafe\s",
@@ -120,7 +131,9 @@ def audit(prop):
     d = os.path.join(LEAN, ".lake", "audit")
     os.makedirs(d, exist_ok=True)
     f = os.path.join(d, "Audit%s.lean" % prop)
-    open(f, "w").write(_AUDIT_TMPL % {"prop": prop})
+    mods = props_modules(prop)
+    open(f, "w").write(_AUDIT_TMPL % {"imports": "\n".join("import " + m for m in mods),
+                                      "mods": ", ".join("`" + m for m in mods)})
     rc, out = sh(["lake", "env", "lean", f], cwd=LEAN, timeout=900)
     thms = {}
     for m in re.finditer(r"^AUDIT (\S+) :: \[(.*)\]$", out, re.M):
